@@ -9,8 +9,12 @@ pub tracked struct IWorld {
 }
 // the region names a vector owns: `{name}/{index}` and its auxiliary region (`.._pages` for compressed, `.._holes` for raw)
 pub uninterp spec fn data_name<I>(n: Seq<u8>) -> Seq<u8>;
-pub uninterp spec fn pages_name<I>(n: Seq<u8>) -> Seq<u8>;
-pub uninterp spec fn holes_name<I>(n: Seq<u8>) -> Seq<u8>;
+// an auxiliary region is named after the vector's own data region (name AND index type), plus a fixed suffix
+pub uninterp spec fn suffix_bytes(which: int) -> Seq<u8>;       // 1: "_holes", 2: "_pages"
+pub open spec fn pages_name<I>(n: Seq<u8>) -> Seq<u8> { data_name::<I>(n) + suffix_bytes(2) }
+pub open spec fn holes_name<I>(n: Seq<u8>) -> Seq<u8> { data_name::<I>(n) + suffix_bytes(1) }
+// N8: format!("{}_holes", x) / format!("{}_pages", x): x followed by the literal
+#[verifier::external_body] pub fn fmt_suffix(x: StrH, Ghost(which): Ghost<int>) -> (r: StrH) ensures r.bytes() == x.bytes() + suffix_bytes(which) { unimplemented!() }
 #[verifier::external_body] pub struct Database { _p: core::marker::PhantomData<u8> }
 // 0 = Ok, 1 = WrongEndian, 2 = WrongLength, 3 = DifferentFormat, 4 = DifferentVersion, 9 = anything else (I/O, lock, rawdb ...)
 pub open spec fn err_kind<V>(r: Result<V>) -> int {
